@@ -177,10 +177,8 @@ func Solve(o *Obligation, workDir string, timeoutS int, confirm bool) *SolveResu
 	if eq := dropExists(q); eq != q {
 		ename := filepath.Join(workDir, sanitizeFile(o.Name)+".noexists.smt2")
 		if os.WriteFile(ename, []byte(eq), 0o644) == nil {
-			lim := timeoutS / 2
-			if lim < 3 {
-				lim = 3
-			}
+			// short: where this tier helps it helps at once (the goal does not need the dropped assumptions)
+			lim := 2
 			w3, t3 := race(ename, lim)
 			for _, t := range t3 {
 				res.Tried = append(res.Tried, "noexists/"+t)
